@@ -237,4 +237,67 @@ def findPath : List Line := [
   ⟨2, .addAssign, (.var "v1"), (.int 1)⟩,
   ⟨0, .returnS, (.var "v0"), .none⟩]
 
+/-- App.Run, the arm `case ev := <-a.vx.Events()` -/
+def runEventBlock : List Line := [
+  ⟨0, .typeSwitchS, (.lit "v5 := v4.(type)"), .none⟩,
+  ⟨1, .caseS, (.var "vaxis.Resize"), .none⟩,
+  ⟨2, .assign, (.var "r.redraw"), (.var "true")⟩,
+  ⟨1, .caseS, (.var "vaxis.Mouse"), .none⟩,
+  ⟨2, .define, (.var "v6"), (.arg (.arg (.call (.var "v3.handleEvent")) (.var "r")) (.var "v5"))⟩,
+  ⟨2, .ifS, (.bin "!=" (.var "v6") (.var "nil")), .none⟩,
+  ⟨3, .returnS, (.var "v6"), .none⟩,
+  ⟨1, .caseS, (.var "vaxis.FocusIn"), .none⟩,
+  ⟨2, .define, (.var "v7"), (.arg (.arg (.call (.var "v3.mouseEnter")) (.var "r")) (.var "v0"))⟩,
+  ⟨2, .ifS, (.bin "!=" (.var "v7") (.var "nil")), .none⟩,
+  ⟨3, .returnS, (.var "v7"), .none⟩,
+  ⟨1, .caseS, (.var "vaxis.FocusOut"), .none⟩,
+  ⟨2, .assign, (.var "v3.mouse"), (.var "nil")⟩,
+  ⟨2, .define, (.var "v8"), (.arg (.call (.var "v3.mouseExit")) (.var "r"))⟩,
+  ⟨2, .ifS, (.bin "!=" (.var "v8") (.var "nil")), .none⟩,
+  ⟨3, .returnS, (.var "v8"), .none⟩,
+  ⟨1, .caseS, (.var "vaxis.Key"), .none⟩,
+  ⟨2, .define, (.var "v9"), (.arg (.arg (.call (.var "r.fh.handleEvent")) (.var "r")) (.var "v5"))⟩,
+  ⟨2, .ifS, (.bin "!=" (.var "v9") (.var "nil")), .none⟩,
+  ⟨3, .returnS, (.var "v9"), .none⟩,
+  ⟨1, .caseS, (.var "vaxis.Redraw"), .none⟩,
+  ⟨2, .assign, (.var "r.redraw"), (.var "true")⟩,
+  ⟨1, .caseS, (.var "default"), .none⟩,
+  ⟨2, .define, (.var "v10"), (.arg (.arg (.call (.var "r.fh.handleEvent")) (.var "r")) (.var "v5"))⟩,
+  ⟨2, .ifS, (.bin "!=" (.var "v10") (.var "nil")), .none⟩,
+  ⟨3, .returnS, (.var "v10"), .none⟩,
+  ⟨0, .ifS, (.var "r.shouldQuit"), .none⟩,
+  ⟨1, .returnS, (.var "nil"), .none⟩]
+
+/-- App.Run, the arm `case <-time.After(…)` -/
+def runFrameBlock : List Line := [
+  ⟨0, .ifS, (.un "!" (.var "r.redraw")), .none⟩,
+  ⟨1, .continueS, .none, .none⟩,
+  ⟨0, .assign, (.var "r.redraw"), (.var "false")⟩,
+  ⟨0, .define, (.pair (.var "v11") (.var "v12")), (.arg (.call (.var "r.layout")) (.var "v0"))⟩,
+  ⟨0, .ifS, (.bin "!=" (.var "v12") (.var "nil")), .none⟩,
+  ⟨1, .returnS, (.var "v12"), .none⟩,
+  ⟨0, .assign, (.var "v12"), (.arg (.arg (.call (.var "v3.update")) (.var "r")) (.var "v11"))⟩,
+  ⟨0, .ifS, (.bin "!=" (.var "v12") (.var "nil")), .none⟩,
+  ⟨1, .returnS, (.var "v12"), .none⟩,
+  ⟨0, .ifS, (.var "r.redraw"), .none⟩,
+  ⟨1, .assign, (.var "r.redraw"), (.var "false")⟩,
+  ⟨1, .assign, (.pair (.var "v11") (.var "v12")), (.arg (.call (.var "r.layout")) (.var "v0"))⟩,
+  ⟨1, .ifS, (.bin "!=" (.var "v12") (.var "nil")), .none⟩,
+  ⟨2, .returnS, (.var "v12"), .none⟩,
+  ⟨0, .define, (.var "v13"), (.call (.var "r.vx.Window"))⟩,
+  ⟨0, .exprS, (.call (.var "v13.Clear")), .none⟩,
+  ⟨0, .exprS, (.call (.var "r.vx.HideCursor")), .none⟩,
+  ⟨0, .exprS, (.arg (.arg (.call (.var "v11.render")) (.arg (.arg (.arg (.arg (.call (.var "v13.New")) (.int 0)) (.int 0)) (.arg (.call (.var "int")) (.var "v11.Size.Width"))) (.arg (.call (.var "int")) (.var "v11.Size.Height")))) (.var "r.fh.focused")), .none⟩,
+  ⟨0, .switchS, (.var "r.refresh"), .none⟩,
+  ⟨1, .caseS, (.var "true"), .none⟩,
+  ⟨2, .exprS, (.call (.var "r.vx.Refresh")), .none⟩,
+  ⟨2, .assign, (.var "r.refresh"), (.var "false")⟩,
+  ⟨1, .caseS, (.var "false"), .none⟩,
+  ⟨2, .exprS, (.call (.var "r.vx.Render")), .none⟩,
+  ⟨0, .ifS, (.var "r.debug"), .none⟩,
+  ⟨1, .exprS, (.arg (.arg (.arg (.call (.var "debugPrintWidget")) (.var "v11")) (.int 0)) (.var "r.fh.focused")), .none⟩,
+  ⟨1, .assign, (.var "r.debug"), (.var "false")⟩,
+  ⟨0, .exprS, (.arg (.arg (.call (.var "r.fh.updatePath")) (.var "r")) (.var "v11")), .none⟩,
+  ⟨0, .assign, (.var "v3.lastFrame"), (.var "v11")⟩]
+
 end VaxisModel.Lemmas.VxfwBodyExpected
